@@ -3,6 +3,7 @@
 package factory
 
 import (
+	"github.com/go-kid/ioc/component_definition"
 	"github.com/go-kid/ioc/container"
 	"github.com/go-kid/ioc/container/support"
 	"github.com/go-kid/ioc/zzverif/nd"
@@ -17,6 +18,9 @@ type vOP struct {
 	name     string
 	log      *[]int
 	decorate bool
+	self     func() *component_definition.Meta
+	dep      func() *component_definition.Meta
+	D        any // an eager processor may have a dependency of its own: it is created while the chain is being activated
 }
 
 // what a decorating processor puts in place of another processor component: not a post-processor itself
@@ -27,15 +31,51 @@ func (p *vOP) PostProcessBeforeInitialization(c any, name string) (any, error) {
 	if name == "t" {
 		*p.log = append(*p.log, p.id)
 	}
+	if name == "d" {
+		*p.log = append(*p.log, 400+p.id)
+	}
 	return c, nil
 }
 func (p *vOP) PostProcessAfterInitialization(c any, name string) (any, error) {
 	if name == "t" {
 		*p.log = append(*p.log, 100+p.id)
 	}
+	if name == "d" {
+		*p.log = append(*p.log, 500+p.id)
+	}
 	if p.decorate && name != "t" && name != p.name {
 		nd.Cover("a processor component decorated by an earlier processor")
 		return &vOPProxy{inner: c}, nil
+	}
+	return c, nil
+}
+
+// every harness processor is also instantiation-aware and "smart": the callbacks around population and
+// the early-reference callback are sequenced by the same contract
+func (p *vOP) PostProcessBeforeInstantiation(m *component_definition.Meta, name string) (any, error) {
+	return nil, nil
+}
+func (p *vOP) PostProcessAfterInstantiation(c any, name string) (bool, error) { return true, nil }
+func (p *vOP) PostProcessProperties(props []*component_definition.Property, c any, name string) ([]*component_definition.Property, error) {
+	for _, pr := range props {
+		if pr.StructField.Name == "D" && len(pr.Injects) == 0 && p.dep != nil {
+			pr.Injects = append(pr.Injects, p.dep())
+		}
+	}
+	if name == "t" {
+		*p.log = append(*p.log, 300+p.id)
+		// the target refers to itself: its own early reference is requested while it is populated
+		for _, pr := range props {
+			if pr.StructField.Name == "P0" && len(pr.Injects) == 0 && p.self != nil {
+				pr.Injects = append(pr.Injects, p.self())
+			}
+		}
+	}
+	return nil, nil
+}
+func (p *vOP) GetEarlyBeanReference(c any, name string) (any, error) {
+	if name == "t" {
+		*p.log = append(*p.log, 200+p.id)
 	}
 	return c, nil
 }
@@ -75,12 +115,19 @@ func VerifC12Processors() {
 		allowCircularReferences:           true,
 	}
 	var log []int
+	depGiven := false
 	class := make([]int, k)
 	order := make([]int, k)
 	for i := 0; i < k; i++ {
 		class[i] = nd.Choose(3)
 		lazy := nd.Bool()
 		base := vOP{id: i, name: "p" + vNames[i], log: &log}
+		if nd.Param("DEP", 0) == 1 {
+			base.dep = func() *component_definition.Meta { return f.definitionRegistry.GetMetaByName("d") }
+		}
+		if nd.Param("SMART", 0) == 1 {
+			base.self = func() *component_definition.Meta { return f.definitionRegistry.GetMetaByName("t") }
+		}
 		if i == 0 && nd.Param("DECORATE", 0) == 1 {
 			base.decorate = nd.Bool()
 		}
@@ -105,25 +152,72 @@ func VerifC12Processors() {
 		}
 		if !lazy {
 			nd.Cover("eager processor")
-			f.definitionRegistry.GetMetaOrRegister(base.name, p)
+			pm := f.definitionRegistry.GetMetaOrRegister(base.name, p)
+			if nd.Param("DEP", 0) == 1 && !depGiven && nd.Bool() {
+				depGiven = true
+				for _, fld := range pm.Fields {
+					if fld.StructField.Name == "D" {
+						pm.SetProperties(component_definition.NewProperty(fld, component_definition.PropertyTypeComponent, "wire", ",required=false"))
+						nd.Cover("a processor with a dependency created during activation")
+					}
+				}
+			}
 		}
 		f.postProcessorRegistrationDelegate.RegisterComponentPostProcessors(p, base.name)
 	}
 	target := &vNode{name: "t", idx: 0, env: &vEnv{}}
-	f.definitionRegistry.GetMetaOrRegister("t", target)
+	if nd.Param("DEP", 0) == 1 {
+		f.definitionRegistry.GetMetaOrRegister("d", &vNode{name: "d", idx: 0, env: &vEnv{}})
+	}
+	tm := f.definitionRegistry.GetMetaOrRegister("t", target)
+	if nd.Param("SMART", 0) == 1 {
+		for _, fld := range tm.Fields {
+			if fld.StructField.Name == "P0" {
+				tm.SetProperties(component_definition.NewProperty(fld, component_definition.PropertyTypeComponent, "wire", ",required=false"))
+			}
+		}
+	}
 	err := f.postProcessorRegistrationDelegate.InvokeBeanFactoryPostProcessors(f, nil)
 	nd.Assert(err == nil, "processor activation ok")
 	nd.Assert(f.Refresh() == nil, "start ok")
 	// the target saw every processor exactly once before and once after initialization, in contract order
-	var before, after []int
+	var before, after, early, props, dBefore, dAfter []int
 	for _, e := range log {
-		if e < 100 {
+		switch {
+		case e < 100:
 			before = append(before, e)
-		} else {
+		case e < 200:
 			after = append(after, e-100)
+		case e < 300:
+			early = append(early, e-200)
+		case e < 400:
+			props = append(props, e-300)
+		case e < 500:
+			dBefore = append(dBefore, e-400)
+		default:
+			dAfter = append(dAfter, e-500)
 		}
 	}
-	for _, seq := range [][]int{before, after} {
+	// a component created while the chain is being activated sees the processors activated so far - in contract order
+	for _, seq := range [][]int{dBefore, dAfter} {
+		for j := 1; j < len(seq); j++ {
+			a, b := seq[j-1], seq[j]
+			nd.Assert(a != b, "C12: every post-processor's callback is invoked at most once per component")
+			nd.Assert(class[a] <= class[b], "C12: post-processor callbacks during activation: priority-ordered before ordered before unordered")
+			if class[a] == class[b] && class[a] < 2 {
+				nd.Assert(order[a] <= order[b], "C12: post-processor callbacks during activation: Order never decreases inside a group")
+			}
+		}
+		if len(seq) > 1 && len(seq) < k {
+			nd.Cover("a component created during activation saw part of the chain")
+		}
+	}
+	seqs := [][]int{before, after}
+	if nd.Param("SMART", 0) == 1 {
+		nd.Cover("early-reference and population callbacks checked")
+		seqs = append(seqs, early, props)
+	}
+	for _, seq := range seqs {
 		nd.Assert(len(seq) == k, "C12: every post-processor's callback is invoked exactly once per component")
 		for j := 1; j < len(seq); j++ {
 			a, b := seq[j-1], seq[j]
